@@ -20,6 +20,24 @@ func workDir() string {
 }
 
 // writeOverlay materialises the overlay files and returns the overlay json path.
+// nativeRewrites returns overlay entries for repo files rewritten for native runs.
+func nativeRewrites(u *Unit) map[string][]byte {
+	out := map[string][]byte{}
+	for rel, subs := range u.NativeRewrite {
+		path := filepath.Join(repoDir, rel)
+		b, err := os.ReadFile(path)
+		if err != nil {
+			continue
+		}
+		txt := string(b)
+		for _, s := range subs {
+			txt = strings.ReplaceAll(txt, s[0], s[1])
+		}
+		out[path] = []byte(txt)
+	}
+	return out
+}
+
 func writeOverlay(dir string, ov map[string][]byte, extra map[string][]byte) string {
 	repl := map[string]string{}
 	i := 0
@@ -70,7 +88,9 @@ func TestVerifReplay(t *testing.T) {
 	}
 }
 `, pname, v.Harness)
-	ovp := writeOverlay(dir, p.overlay, map[string][]byte{filepath.Join(pdir, "zz_verif_replay_test.go"): []byte(test)})
+	extra := nativeRewrites(spec)
+	extra[filepath.Join(pdir, "zz_verif_replay_test.go")] = []byte(test)
+	ovp := writeOverlay(dir, p.overlay, extra)
 	cmd := exec.Command("go", "test", "-vet=off", "-count=1", "-run", "^TestVerifReplay$", "-v", "-overlay", ovp, "./"+spec.Package)
 	cmd.Dir = repoDir
 	cmd.Env = append(goTestEnv(), "VERIF_REPLAY="+replayPath)
@@ -126,7 +146,9 @@ func nativeTraces(spec *Unit, p *Program, harnesses []string, params map[string]
 		fmt.Fprintf(&sb, "\t\t_, _, panicked, af := verifRun(%s)\n\t\tout[%q] = append(out[%q], verifTraceOf(panicked, af))\n\t}\n", h, h, h)
 	}
 	sb.WriteString("\tb, _ := json.Marshal(out)\n\tos.WriteFile(os.Getenv(\"VERIF_TRACE_OUT\"), b, 0o644)\n}\n")
-	ovp := writeOverlay(dir, p.overlay, map[string][]byte{filepath.Join(pdir, "zz_verif_traces_test.go"): []byte(sb.String())})
+	extra := nativeRewrites(spec)
+	extra[filepath.Join(pdir, "zz_verif_traces_test.go")] = []byte(sb.String())
+	ovp := writeOverlay(dir, p.overlay, extra)
 	outFile := filepath.Join(dir, "traces.json")
 	cmd := exec.Command("go", "test", "-vet=off", "-count=1", "-run", "^TestVerifTraces$", "-overlay", ovp, "./"+spec.Package)
 	cmd.Dir = repoDir
